@@ -17,13 +17,15 @@ def corpus(tier):
              D.catch_family(SEED + 208, 6 if q else 24, maxlen=2, budget=800 if q else 5000) +
              D.dupcmd_family(SEED + 213, 4 if q else 12, maxlen=2 if q else 3) +
              D.flagguard_family(SEED + 211, 12 if q else 36, maxlen=2 if q else 3, budget=800 if q else 5000) +
+             D.battery_family(SEED + 214, 12 if q else 48, maxlen=3, budget=1500 if q else 10000) +
              [dict(d, alpha=dict(d["alpha"], extras=["help"])) for d in D.spell_family(SEED + 205, 14 if q else 56, maxlen=2, budget=4000 if q else 30000)]),
             ("g", "MC_GroupLine", "MC_GroupLine_replay.cfg",
              D.alt_family(SEED + 203, 8 if q else 40, maxlen=3 if q else 4, budget=3000 if q else 20000) +
              D.adj_family(SEED + 204, 6 if q else 30, maxlen=4 if q else 5, budget=3000 if q else 20000) +
              D.alt_env_family(SEED + 209, 6 if q else 30, maxlen=2 if q else 3, budget=1000 if q else 8000) +
              D.alt_pos_family(SEED + 210, 6 if q else 30, maxlen=3, budget=2000 if q else 15000) +
-             D.group_fb_family(SEED + 212, 12 if q else 36, maxlen=3, budget=2500 if q else 15000, with_gdflt=True))]
+             D.group_fb_family(SEED + 212, 12 if q else 36, maxlen=3, budget=2500 if q else 15000, with_gdflt=True) +
+             D.toggle_family(SEED + 215, 6 if q else 18, maxlen=3, budget=2000 if q else 10000))]
     return fams
 
 
